@@ -6,6 +6,7 @@ package main
 
 import (
 	"bufio"
+	"crypto/tls"
 	"encoding/json"
 	"errors"
 	"fmt"
@@ -58,7 +59,8 @@ type Cfg struct {
 	Back    int `json:"back"`    // RequestBackChannels
 	AnyPort int `json:"anyport"` // AnyPortEnable
 	NMedia  int `json:"nmedia"`
-	Local   int `json:"local"` // 1: medias are built locally, no DESCRIBE (Setup without Describe)
+	Local   int `json:"local"`  // 1: medias are built locally, no DESCRIBE (Setup without Describe)
+	Secure  int `json:"secure"` // 1: rtsps (TLS with a throw-away certificate) and RTP/SAVP medias; oracle only
 }
 
 type Case struct {
@@ -340,7 +342,11 @@ func runCase(cs *Case, onRec func(reqRecord)) (res Result) {
 	if cs.Cfg.Creds != 0 {
 		userinfo = "user:pass@"
 	}
-	u, err := base.ParseURL(fmt.Sprintf("rtsp://%s127.0.0.1:%d/stream", userinfo, srv.port))
+	scheme := "rtsp"
+	if cs.Cfg.Secure != 0 {
+		scheme = "rtsps"
+	}
+	u, err := base.ParseURL(fmt.Sprintf("%s://%s127.0.0.1:%d/stream", scheme, userinfo, srv.port))
 	if err != nil {
 		res.Fatal = err.Error()
 		return
@@ -354,6 +360,7 @@ func runCase(cs *Case, onRec func(reqRecord)) (res Result) {
 		InitialUDPReadTimeout: initialUDPMs * time.Millisecond,
 		RequestBackChannels:   cs.Cfg.Back != 0,
 		AnyPortEnable:         cs.Cfg.AnyPort != 0,
+		TLSConfig:             &tls.Config{InsecureSkipVerify: true}, //nolint:gosec
 		OnTransportSwitch:     func(error) {},
 		OnPacketsLost:         func(uint64) {},
 		OnDecodeError:         func(error) {},
